@@ -604,3 +604,23 @@ def run(ctx):
         cal = {rfile.blocks[n_[1]].term.callee.short.split("::")[-1] for n_ in sl if n_[0] == "CALL" and rfile.blocks[n_[1]].term.callee}
         ok6r = "read_to_string" in cal and cal <= {"read_to_string", "expect", "unwrap", "deref", "as_str", "branch"}
     ctx.require(ok6r, "V6", "read-file", "read_graphml_file feeds the file's contents unmodified into read_graphml_string", "read_graphml_file transforms the contents before parsing", loc_str(rfile.span))
+
+
+def attribute_values_unescaped(ctx, prog, rid, reader, consequence):
+    """shared with C19: the reader takes attribute values through quick-xml's unescape_value (entity and character
+    references resolved), never from the raw bytes of Attribute.value"""
+    rscope = prog.reachable_bodies([reader.path])
+    vals, raw = [], []
+    for p in rscope:
+        b = prog.bodies[p]
+        for t in b.calls():
+            if t.callee and "quick_xml" in t.callee.short and t.callee.short.split("::")[-1] in ("unescape_value", "decode_and_unescape_value"):
+                vals.append(t)
+        for s_ in b.stmts():
+            if s_.k != "assign":
+                continue
+            for pl in [s_.rv.place] + [o.place for o in s_.rv.ops]:
+                if pl is not None and pl.fields()[-1:] == ["value"] and "Attribute" in "".join(e.get("of", "") for e in pl.proj if isinstance(e, dict)):
+                    raw.append((b, s_))
+    ctx.require(bool(vals) and not raw, rid, "attribute-values", "attribute values are obtained through unescape_value (%d call sites), never from Attribute.value" % len(vals),
+                "the reader %s: an id such as \"R&amp;D\" is then read as the literal text `R&amp;D`, so the graph does not contain the nodes and edges the document names, %s" % ("reads the raw bytes of Attribute.value in %s" % raw[0][0].short if raw else "never unescapes attribute values", consequence), loc_str(raw[0][1].span) if raw else loc_str(reader.span))
